@@ -308,7 +308,18 @@ def validate_query(metrics: list[str], dimensions: list[str], graph: "SemanticGr
                 if measure and measure.sql and "." in measure.sql:
                     model_names.add(measure.sql.split(".")[0])
             except KeyError:
-                pass  # Already reported as error above
+                measure = None  # Already reported as error above
+
+            # A graph-level metric can draw on several models (the numerator and denominator of a
+            # ratio, a formula over measures of two models): all of them take part in the joins
+            if measure:
+                try:
+                    dependencies = measure.get_dependencies(graph)
+                except Exception:
+                    dependencies = set()
+                for dependency in dependencies:
+                    if "." in dependency:
+                        model_names.add(dependency.split(".")[0])
 
     for dim_ref in dimensions:
         if "__" in dim_ref:
